@@ -39,6 +39,10 @@ CLOSED = ["S1<S2<Z>>: H", "S2<S2<Y>>: P", "S1<S1<S1<Z>>>: G", "Z: H", "S2<Y>: G"
 LIMITS = [({"kind": "slg", "max_size": 10}, "slg10"), ({"kind": "slg", "max_size": 4}, "slg4"),
           ({"kind": "rec", "overflow": 100, "cache": True, "max_size": 30}, "rec"), ({"kind": "rec", "overflow": 20, "cache": True, "max_size": 4}, "rec4")]
 
+KF15_PROGRAM = ("struct Z {} struct Y {} struct S1<T> {} struct S2<T> {} trait H {} trait P {} trait G {} impl<T> P for S2<T> where T: H {} "
+                "impl<T> H for S1<T> where T: H, S1<T>: H, T: G {} impl P for Z {} impl<T> G for S2<T> where T: H {} impl<T> H for S2<T> where T: G {} "
+                "impl H for Z {} impl<T> G for S1<T> where T: P, T: H, T: P {} impl<T> P for S1<T> where T: G, Z: H {}")
+
 def answer_bound(max_size):
     """number of distinct type patterns of size <= max_size over Z, Y, a variable and two unary constructors: what an answer stream
     for a goal with one unknown can hold before the size limit flounders the table"""
@@ -97,5 +101,10 @@ def terminate_first_order(run, tier):
                 if len(t[0]) <= budget: sel.append(t); budget -= len(t[0])
             ntr += len(sel)
             gc.validate_traces(run, sel, "first-order-" + tag)
+    # a recorded input on which the recursive solver does not return within the watchdog (known finding KF15-C09)
+    o = harness.run("solve", [{"id": 0, "program": KF15_PROGRAM, "solver": gc.REC, "ops": [{"op": "solve", "goal": "exists<T> { T: H }"}]}], par=1, chunk=1, timeout=20)[0]
+    run.case([KF15_PROGRAM, "rec"])
+    if o.get("error"):
+        run.violation({"src": "first-order", "solver": "rec", "what": "abort-or-hang", "input": "cyclic-3wc-1"}, {"program": KF15_PROGRAM, "goal": "exists<T> { T: H }", "observed": o})
     run.extra["first_order_programs"] = len(progs)
     run.extra["first_order_traces"] = ntr
